@@ -98,6 +98,10 @@ def is_list(t):
     return isinstance(t, tuple) and t[0] == "List"
 
 
+def is_dict(t):
+    return isinstance(t, tuple) and t[0] == "Dict"
+
+
 def join(a, b, node=None):
     """least upper bound of two types (None = not known yet)"""
     if a == b:
@@ -124,6 +128,8 @@ def lean_ty(t):
         return f"List {inner}" if " " not in inner else f"List ({inner})"
     if isinstance(t, tuple) and t[0] == "Rec":
         return t[1]
+    if is_dict(t):                                                    # a dict literal: association list, first match
+        return f"List ({lean_ty(t[1])} × {lean_ty(t[2])})"
     if is_tuple(t):
         return " × ".join(lean_ty(x) if " " not in lean_ty(x) else f"({lean_ty(x)})" for x in t[1])
     return t
@@ -206,7 +212,7 @@ class Translator:
                     last -= 1
             for k in range(node.lineno, last + 1):
                 txt = self.src_lines[k - 1].strip()
-                if txt:
+                if txt and not txt.startswith("#"):
                     self.out.append("  " * ind + f"-- L{k}: {txt}")
         if self.emitting:
             self.out.append("  " * ind + text)
@@ -274,6 +280,8 @@ class Translator:
             rec, obj = self._record_of(n.value)
             if rec is not None and (rec, n.attr) in self.pure.attrs:
                 tpl, ty = self.pure.attrs[(rec, n.attr)]
+                if "←" in tpl:                                            # a property that is itself a translated function
+                    self.raising = True
                 return E(tpl.format(obj), ty)
         raise Unsupported(n, "attribute access outside the subset")
 
@@ -314,7 +322,38 @@ class Translator:
                 if self.emitting and not self.declared(v.id):
                     raise Unsupported(v, f"local `{v.id}` is possibly unbound here")
                 return t[1], mangle(v.id)
+        if isinstance(v, ast.Attribute) and not (isinstance(v.value, ast.Name) and v.value.id in self.enums):
+            e = self.ex(v)                                                 # a chain `a.b.c`: every link must be declared in the spec
+            if isinstance(e.ty, tuple) and e.ty[0] == "Rec":
+                return e.ty[1], e.code
         return None, None
+
+    def ex_Dict(self, n):
+        """`{k1: v1, …}` with pairwise different constant keys (enum members of the spec or int literals) and int values: an
+        association list; only `d[k]` reads it (→ `Py.dictGet`, `KeyError` when absent). It is never mutated in the subset."""
+        if not n.keys or any(k is None for k in n.keys):
+            raise Unsupported(n, "empty dict literal / `**` in a dict literal")
+        ks, vs, seen = [], [], set()
+        for k, v in zip(n.keys, n.values):
+            ke, ve = self.ex(k), self.ex(v)
+            ident = ke.code
+            is_const = ke.lit is not None or (isinstance(ke.ty, tuple) and ke.ty[0] == "Rec" and isinstance(k, ast.Attribute))
+            if not is_const:
+                raise Unsupported(k, "dict key is not a constant (an int literal or an enum member)")
+            if ident in seen:
+                raise Unsupported(k, "the same key twice in a dict literal")
+            seen.add(ident)
+            ks.append(ke)
+            vs.append(ve)
+        kt = vt = None
+        for ke in ks:
+            kt = join(kt, ke.ty, n)
+        for ve in vs:
+            vt = join(vt, ve.ty, n)
+        if vt not in (NAT, INT) or is_opt(kt):
+            raise Unsupported(n, "dict literal: values must be ints, keys must not be None")
+        items = ", ".join(f"({self.coerce(ke, kt, n)}, {self.coerce(ve, vt, n)})" for ke, ve in zip(ks, vs))
+        return E(f"[{items}]", ("Dict", kt, vt))
 
     def ex_UnaryOp(self, n):
         if isinstance(n.op, ast.USub):
@@ -466,6 +505,19 @@ class Translator:
                 return E("_", None)
             t = join(a.ty, b.ty, n)
             return E(f"({f.id} {self.coerce(a, t, n)} {self.coerce(b, t, n)})", t)
+        if isinstance(f, ast.Name) and f.id == "sorted":
+            return self._sorted(n)
+        if isinstance(f, ast.Name) and f.id == "getattr" and len(n.args) == 3 and not n.keywords and self.pure is not None:
+            # getattr(obj, "name", default): the spec names a term that already stands for "the attribute, or the default when the
+            # object has none" and states which default that is
+            rec, obj = self._record_of(n.args[0])
+            nm = n.args[1]
+            if rec is not None and isinstance(nm, ast.Constant) and isinstance(nm.value, str) and (rec, nm.value) in self.pure.getattr_defaults:
+                tpl, ty, default_src = self.pure.getattr_defaults[(rec, nm.value)]
+                if ast.unparse(n.args[2]) != default_src:
+                    raise Unsupported(n, f"default of getattr is not `{default_src}`")
+                return E(tpl.format(obj), ty)
+            raise Unsupported(n, "getattr outside the subset")
         if isinstance(f, ast.Name) and f.id == "cast" and len(n.args) == 2 and not n.keywords:
             # typing.cast(T, e) returns e unchanged at run time; the type T is not consulted (the translator infers its own)
             if not self._imported_from("typing", "cast"):
@@ -522,6 +574,14 @@ class Translator:
         a = self.ex(n.value)
         if a.ty is None:
             return E("_", None)
+        if is_dict(a.ty):
+            if isinstance(n.slice, ast.Slice):
+                raise Unsupported(n, "slice of a dict")
+            k = self.ex(n.slice)
+            if k.ty is None:
+                return E("_", a.ty[2])
+            self.raising = True                                            # KeyError
+            return E(f"(← Py.dictGet {a.code} {self.coerce(k, a.ty[1], n)})", a.ty[2])
         if strip_opt(a.ty) != BYTES:
             raise Unsupported(n, "indexing of a non-byte-sequence")
         base = self.coerce(a, BYTES, n)
@@ -568,6 +628,8 @@ class Translator:
                 try:
                     if isinstance(st, ast.Assign) and len(st.targets) == 1:
                         self._infer_assign(st.targets[0], st.value, st)
+                    elif isinstance(st, ast.AnnAssign) and st.value is not None and isinstance(st.target, ast.Name):
+                        self._infer_assign(st.target, st.value, st)        # the annotation is not consulted
                     elif isinstance(st, ast.AugAssign) and isinstance(st.target, ast.Name):
                         v = ast.BinOp(left=ast.Name(id=st.target.id, ctx=ast.Load()), op=st.op, right=st.value)
                         ast.copy_location(v, st)
@@ -774,6 +836,10 @@ class Translator:
 
     def _assign_local(self, v, e: E, st, ind, value_node=None, comment=True):
         cst = st if comment else None
+        if self.pure is not None and v in self.pure.params:
+            raise Unsupported(st, f"assignment to the parameter `{v}`")
+        if is_dict(self.vt.get(v)) and self.declared(v):
+            raise Unsupported(st, f"re-assignment of the dict `{v}`")
         if v == "_":
             self.emit(ind, f"let _ := {e.code}", cst)
             return
@@ -912,22 +978,69 @@ class Translator:
 
     # ------------------------------------------------------------------------------------------------ loops (pure functions)
     def _iterable(self, it):
-        if isinstance(it, ast.Call) and isinstance(it.func, ast.Name) and it.func.id == "sorted" and len(it.args) == 1 and not it.keywords:
-            inner = self._iterable(it.args[0])
-            el = inner.ty[1] if inner.ty else None
-            if el in (NAT, INT, None):
-                fn = "Py.sortedNat" if el == NAT else "Py.sortedInt"
-            elif el == tup(INT, INT):
-                fn = "Py.sortedIntPair"                                    # tuples compare lexicographically
-            else:
-                raise Unsupported(it, f"sorted() of {lean_ty(el)} (only int and Tuple[int, int] with both components typed Int)")
-            return E(f"({fn} {inner.code})", inner.ty)
         if isinstance(it, (ast.GeneratorExp, ast.ListComp)):
             return self._comprehension(it)
         e = self.ex(it)
         if e.ty is not None and not is_list(e.ty):
             raise Unsupported(it, "iteration over a non-list")
         return e
+
+    def ex_ListComp(self, n):
+        return self._comprehension(n)
+
+    def ex_List(self, n):
+        raise Unsupported(n, "list literal outside the subset")
+
+    def _sorted(self, n):
+        """`sorted(xs)` for ints and int pairs; `sorted(xs, key=lambda v: e, reverse=b)` with a natural-number key `e`.
+        Python computes the keys of all elements first, in order (an exception of the key function propagates), then sorts
+        stably; `reverse=True` sorts descending and still keeps elements with equal keys in their original order."""
+        kw = {k.arg: k.value for k in n.keywords}
+        if len(n.args) != 1 or set(kw) - {"key", "reverse"} or None in kw:
+            raise Unsupported(n, "sorted(xs[, key=…][, reverse=…])")
+        inner = self._iterable(n.args[0])
+        el = inner.ty[1] if inner.ty else None
+        if "key" not in kw:
+            if "reverse" in kw:
+                raise Unsupported(n, "sorted(reverse=…) without key")
+            if el in (NAT, INT, None):
+                fn = "Py.sortedNat" if el == NAT else "Py.sortedInt"
+            elif el == tup(INT, INT):
+                fn = "Py.sortedIntPair"                                    # tuples compare lexicographically
+            else:
+                raise Unsupported(n, f"sorted() of {lean_ty(el)} (only int and Tuple[int, int] with both components typed Int)")
+            return E(f"({fn} {inner.code})", inner.ty)
+        lam = kw["key"]
+        if not (isinstance(lam, ast.Lambda) and len(lam.args.args) == 1 and not lam.args.defaults and not lam.args.vararg
+                and not lam.args.kwarg and not lam.args.kwonlyargs and not lam.args.posonlyargs):
+            raise Unsupported(n, "key must be a one-parameter lambda")
+        v = lam.args.args[0].arg
+        if v in self.vt and self.vt[v] is not None and v not in self.comp_vars:
+            raise Unsupported(n, f"lambda parameter `{v}` has the name of a local or parameter")
+        self.comp_vars.add(v)
+        self.vt[v] = el
+        rev = E("false", BOOL)
+        if "reverse" in kw:
+            saved, self.raising = self.raising, False
+            rev = self.ex(kw["reverse"])
+            if self.raising:
+                raise Unsupported(n, "reverse= can raise")
+            self.raising = saved
+            if rev.ty not in (BOOL, None):
+                raise Unsupported(n, "reverse= is not a bool (truthiness is outside the subset)")
+        self.scopes.append({v})
+        saved, self.raising = self.raising, False
+        try:
+            key = self.ex(lam.body)                                        # may raise: rendered in a `do` block of its own
+        finally:
+            self.scopes.pop()
+            self.raising = saved
+        if key.ty is None or el is None:
+            return E("_", inner.ty)
+        if key.ty != NAT:
+            raise Unsupported(n, f"sort key of type {lean_ty(key.ty)} (only provably non-negative ints)")
+        self.raising = True
+        return E(f"(← Py.sortedByKeyM (fun {mangle(v)} => do pure {key.code}) {rev.code} {inner.code})", inner.ty)
 
     def _comprehension(self, n):
         """`[f(x) for x in xs]` / `(f(x) for x in xs)` consumed once, in order → `xs.map fun x => f x`; `f(x)` must not raise"""
@@ -1208,6 +1321,7 @@ class PureSpec:
     # (record | None for a module-level function, name) -> (template: `{0}`, `{1}` … = arguments, `{obj}` = the object;
     #                                                        [argument types], result type, can it raise?)
     calls: dict = field(default_factory=dict)
+    getattr_defaults: dict = field(default_factory=dict)   # (record, attribute) -> (template, type, source text of the default)
     enums: dict = field(default_factory=dict)      # plain `Enum` class -> (Lean inductive type, {member -> constructor}); ALL members
     open_ns: str = ""                              # further namespaces opened in the generated file
     prelude: list = field(default_factory=list)    # hand-written Lean lines emitted before the function (glue named by templates)
@@ -1220,8 +1334,18 @@ def translate_pure_function(src: str, func: str, spec: PureSpec, namespace: str,
     fn = _find_func(_find_class(module, cls_name) if cls_name else module, func)
     tr = Translator(module, lines, pure=spec)
     a = fn.args
-    if a.vararg or a.kwarg or a.kwonlyargs or a.defaults or [x.arg for x in a.args] != list(spec.params):
+    if a.vararg or a.kwarg or a.kwonlyargs or a.posonlyargs or [x.arg for x in a.args] != list(spec.params):
         raise Unsupported(fn, f"expected parameters {list(spec.params)}")
+    for d in a.defaults:                                                   # defaults concern the callers, not the body
+        if not isinstance(d, ast.Constant):
+            raise Unsupported(d, "a parameter default that is not a constant (evaluated once, possibly shared)")
+    if a.defaults:
+        names = [x.arg for x in a.args][-len(a.defaults):]
+        tr.notes.append("parameter defaults (they concern the callers; the rendering takes every parameter explicitly): " +
+                        ", ".join(f"{k}={ast.unparse(d)}" for k, d in zip(names, a.defaults)))
+    for d in fn.decorator_list:
+        if ast.unparse(d) not in ("property", "override", "staticmethod"):
+            raise Unsupported(d, "decorator outside the subset (property, override, staticmethod)")
     body = list(fn.body)
     while body and isinstance(body[0], ast.Expr) and isinstance(body[0].value, ast.Constant) and isinstance(body[0].value.value, str):
         body.pop(0)
@@ -1245,6 +1369,8 @@ def translate_pure_function(src: str, func: str, spec: PureSpec, namespace: str,
     o.append("    records (python attribute / method ↔ Lean term):")
     for (rec, at), (tpl, ty) in list(spec.attrs.items()) + list(spec.methods.items()):
         o.append(f"      {rec}.{at} ↔ {tpl.format('·') or at} : {lean_ty(ty)}")
+    for (rec, at), (tpl, ty, dflt) in spec.getattr_defaults.items():
+        o.append(f"      getattr({rec}, {at!r}, {dflt}) ↔ {tpl.format('·')} : {lean_ty(ty)}   (the attribute, or {dflt} for objects without it)")
     if spec.calls:
         o.append("    functions that are not translated (python call ↔ hand-written Lean term; `!` = can raise):")
         for (rec, fname), (tpl, arg_tys, ret, raises) in spec.calls.items():
@@ -1338,6 +1464,43 @@ def render_muxkey(repo: Path) -> str:
 
 def regenerate_muxkey(repo, verif):
     return _write(Path(verif) / "lean" / "OdxVerif" / "Gen" / "MuxDefaultKey.lean", render_muxkey(Path(repo)))
+
+
+LAYER_KIND = ("Rec", "LayerKind")
+LAYER_ENUM = {"DiagLayerType": ("LayerKind", {"PROTOCOL": "protocol", "FUNCTIONAL_GROUP": "functionalGroup", "BASE_VARIANT": "baseVariant",
+                                              "ECU_VARIANT": "ecuVariant", "ECU_SHARED_DATA": "ecuSharedData"})}
+
+PRIO_SPEC = PureSpec(
+    params={"self": (LAYER_KIND, "self_")},
+    binders="(self_ : LayerKind)",
+    enums=LAYER_ENUM, open_ns="OdxVerif.Gen")
+
+# `ParentRef` is a type variable of the rendering: the three models that sort parent references (Inherit, Comparam, OdxLink) each
+# have their own record for "a parent reference with everything the recursion delivered for it"; of `pr.layer` only `variant_type`
+# is read (`kindOf pr`); `.inheritance_priority` is the property translated above
+PARENTREFS_SPEC = PureSpec(
+    params={"self": (("Rec", "HierarchyElement"), None), "reverse": (BOOL, "reverse")},
+    binders="{ParentRef : Type} (kindOf : ParentRef → LayerKind) (parent_refs : List ParentRef) (reverse : Bool)",
+    attrs={("HierarchyElement", "diag_layer_raw"): ("", ("Rec", "DiagLayerRaw")),
+           ("ParentRef", "layer"): ("{}", ("Rec", "ParentRef.layer")),
+           ("ParentRef.layer", "variant_type"): ("(kindOf {})", LAYER_KIND),
+           ("LayerKind", "inheritance_priority"): ("(← inheritancePriorityE {})", NAT)},
+    # DiagLayerRaw subclasses without PARENT-REFS (ECU-SHARED-DATA) have no attribute `parent_refs`: `parent_refs` is then []
+    getattr_defaults={("DiagLayerRaw", "parent_refs"): ("parent_refs", ("List", ("Rec", "ParentRef")), "[]")},
+    open_ns="OdxVerif.Gen")
+
+
+def render_inherit_prio(repo: Path) -> str:
+    rel1, rel2 = "odxtools/diaglayers/diaglayertype.py", "odxtools/diaglayers/hierarchyelement.py"
+    a = translate_pure_function((Path(repo) / rel1).read_text(), "inheritance_priority", PRIO_SPEC, "OdxVerif.Inherit.Gen",
+                                ["OdxVerif.Gen.LayerPrio", "OdxVerif.Model.PyRt"], rel1, cls_name="DiagLayerType")
+    b = translate_pure_function((Path(repo) / rel2).read_text(), "_get_parent_refs_sorted_by_priority", PARENTREFS_SPEC,
+                                "OdxVerif.Inherit.Gen", [], rel2, cls_name="HierarchyElement", lean_name="parentRefsSortedByPriority")
+    return a + "\n" + b
+
+
+def regenerate_inherit_prio(repo, verif):
+    return _write(Path(verif) / "lean" / "OdxVerif" / "Gen" / "InheritPrio.lean", render_inherit_prio(Path(repo)))
 
 
 def limit_spec():
